@@ -60,6 +60,31 @@ def inject(p, cls, r):
     if cls == "output_for_unknown_compartment":
         ops.append({"op": "req", "name": "badreq", "save": True, "req": {"type": "comp", "names": ["Zz"], "filt": {}}})
         return q, len(ops)
+    if cls == "output_for_unmatched_compartment":
+        # the name exists and the stratum exists, but no compartment has both (a partial stratification)
+        part = [i for i in sidx if ops[i]["kind"] == "plain" and set(ops[i]["comps"]) != set(comps)]
+        if not part:
+            return None
+        i = r.choice(part)
+        outside = [c for c in comps if c not in ops[i]["comps"]]
+        if not outside:
+            return None
+        ops.append({"op": "req", "name": "badreq", "save": True,
+                    "req": {"type": "comp", "names": [r.choice(outside)], "filt": {ops[i]["name"]: r.choice(ops[i]["strata"])}}})
+        return q, len(ops)
+    if cls == "output_for_unmatched_flow":
+        # the flow exists and the stratum exists, but no flow of that name has an end in it
+        part = [i for i in sidx if ops[i]["kind"] == "plain" and set(ops[i]["comps"]) != set(comps)]
+        if not part:
+            return None
+        i = r.choice(part)
+        cands = [o for j, o in enumerate(ops) if o["op"] == "flow" and j < i and o["kind"] in ("transition", "death")
+                 and o.get("src") not in ops[i]["comps"] and names.count(o["name"]) == 1]
+        if not cands:
+            return None
+        ops.append({"op": "req", "name": "badreq", "save": True,
+                    "req": {"type": "flow", "flow_name": r.choice(cands)["name"], "sf": {ops[i]["name"]: r.choice(ops[i]["strata"])}}})
+        return q, len(ops)
     if cls == "output_for_unknown_flow":
         ops.append({"op": "req", "name": "badreq", "save": True, "req": {"type": "flow", "flow_name": "nosuchflow"}})
         return q, len(ops)
@@ -224,7 +249,8 @@ CLASSES = ["end_before_start", "timestep_not_dividing", "timestep_not_dividing_l
            "adjustment_omits_stratum", "infectiousness_omits_stratum", "split_omits_stratum", "split_negative", "split_not_one",
            "second_birth_flow", "second_age", "second_strain", "duplicate_stratification", "duplicate_universal_death",
            "duplicate_output_name", "mixing_on_partial", "age_on_partial", "mixing_on_strain", "unequal_source_dest",
-           "flow_count_expectation", "after_finalize", "rate_not_a_number"]
+           "flow_count_expectation", "after_finalize", "rate_not_a_number", "output_for_unmatched_compartment",
+           "output_for_unmatched_flow"]
 
 
 def run(tier, seed):
@@ -251,6 +277,9 @@ def run(tier, seed):
         progs.append(p)
         expect.append(None)
         classes = CLASSES if tier == "thorough" else g.rng.sample(CLASSES, 7)
+        # classes that need a particular context (a partial stratification) are tried on every program
+        classes = list(classes) + [c_ for c_ in ("output_for_unmatched_compartment", "output_for_unmatched_flow", "unequal_source_dest",
+                                                 "age_on_partial", "second_age", "second_strain") if c_ not in classes]
         for cls in classes:
             res = inject(p, cls, g.rng)
             if res is None:
